@@ -22,6 +22,8 @@ use vh::{Args, Report, Rng};
 
 const HOLDER: &str = "did:example:holder";
 const FOREIGN: &str = "did:example:foreign";
+/// A DID of which the holder document lists no method at all; it only occurs in dangling references.
+const OTHER: &str = "did:example:other";
 const BOUND_ISS: i64 = 1_700_000_000;
 const BOUND_EXP: i64 = 1_650_000_000;
 
@@ -40,6 +42,10 @@ fn stranger() -> Key {
 
 /// Holder document: #k1 general purpose + authentication reference, #k2 embedded in assertionMethod,
 /// and a foreign-DID method did:example:foreign#kf (general purpose).
+/// keyAgreement and capabilityDelegation consist of DANGLING references only: DID URLs of other DIDs that are not
+/// listed in the document but share their fragment with an own method (#k1, #k2) which is NOT part of that
+/// relationship. They name no verification method of this document, so nothing is in the scope of these two
+/// relationships. (The own methods sit in relationships that precede the dangling ones in document order.)
 fn holder_doc() -> CoreDocument {
   let j = json!({
     "id": HOLDER,
@@ -49,6 +55,8 @@ fn holder_doc() -> CoreDocument {
     "authentication": [format!("{}#k1", HOLDER)],
     "capabilityInvocation": [format!("{}#k1", HOLDER)],
     "assertionMethod": [method_json(&format!("{}#k2", HOLDER), HOLDER, &k2())],
+    "keyAgreement": [format!("{}#k1", OTHER)],
+    "capabilityDelegation": [format!("{}#k2", OTHER), format!("{}#k1", FOREIGN)],
   });
   serde_json::from_value(j).expect("harness holder document")
 }
@@ -57,8 +65,10 @@ fn holder_doc() -> CoreDocument {
 struct Plan {
   method: u8,             // 0 #k1, 1 #k2, 2 foreign #kf
   sig: u8,                // 0 valid, 1 stranger, 2 claims altered after signing, 3 another method's key
-  kid: u8,                // 0 full id, 1 "#frag", 2 "frag", 3 missing method, 4 absent, 5 garbage
-  method_id_override: u8, // 0 none, 1 = signing method, 2 = another method, 3 = missing method
+  kid: u8,                // 0 full id, 1 "#frag", 2 "frag", 3 missing method, 4 absent, 5 garbage, 6 holder DID + foreign fragment,
+                          // 7/8 look-alike DID, 9 did:example:other#frag, 10 did:example:foreign#frag (the ids of dangling references)
+  method_id_override: u8, // 0 none, 1 = signing method, 2 = another method, 3 = missing method, 4 holder#kf, 5/6 look-alike DID,
+                          // 7 did:example:other#frag, 8 did:example:foreign#frag
   scope: u8,              // 0 None, 1 VerificationMethod, 2 Authentication, 3 AssertionMethod, 4 KeyAgreement
   nonce_hdr: u8,
   nonce_opt: u8,
@@ -73,6 +83,9 @@ struct Plan {
   date_extreme: u8,       // 0 none, 1 exp out of range, 2 nbf out of range, 3 iat out of range (only when used)
   aud: bool,
   rich: bool,
+  /// A date claim written as a JSON number that is not an integer:
+  /// the deciding issuance claim = 1 1.5, 2 1e30, 3 253402300800.5, 4 bound+1.5, 5 bound-0.5; exp = 6 bound-1.5, 7 1e30, 8 bound+0.5
+  frac: u8,
 }
 
 impl Plan {
@@ -96,7 +109,59 @@ impl Plan {
       date_extreme: 0,
       aud: rng.bool(),
       rich: rng.bool(),
+      frac: 0,
     }
+  }
+
+  /// Makes the plan self-consistent: a fractional date replaces the claim an out-of-range integer would have been put on.
+  fn normalize(&mut self) {
+    if self.frac != 0 {
+      self.date_extreme = 0;
+      if self.frac <= 5 && self.issuance == 0 {
+        self.issuance = 1;
+      }
+      if self.frac <= 5 && self.issuance == 3 {
+        self.other_delta = -5; // iat alone would satisfy the bound; nbf (the fractional one) decides
+      }
+    }
+  }
+  /// The fractional number of `frac`.
+  fn frac_value(&self) -> f64 {
+    match self.frac {
+      1 => 1.5,
+      2 | 7 => 1e30,
+      3 => 253_402_300_800.5,
+      4 => BOUND_ISS as f64 + 1.5,
+      5 => BOUND_ISS as f64 - 0.5,
+      6 => BOUND_EXP as f64 - 1.5,
+      _ => BOUND_EXP as f64 + 0.5,
+    }
+  }
+  /// Fractional date that satisfies its bound and is within the representable range: the statement does not say
+  /// whether such a number is a valid date, both verdicts are fine.
+  fn frac_latitude(&self) -> bool {
+    matches!(self.frac, 1 | 5 | 8)
+  }
+  /// The claim that carries the fractional number.
+  fn frac_claim(&self) -> &'static str {
+    match (self.frac, self.issuance) {
+      (6.., _) => "exp",
+      (_, 2) => "iat",
+      _ => "nbf",
+    }
+  }
+  /// The condition that the fractional number falsifies, if any.
+  fn frac_condition(&self) -> Option<&'static str> {
+    match self.frac {
+      4 => Some("issuance"),
+      2 | 3 | 7 => Some("numeric-date-in-range"),
+      6 => Some("expiry"),
+      _ => None,
+    }
+  }
+  /// The id of a dangling reference: another DID with the fragment of method `m`.
+  fn dangling_id(m: u8, foreign: bool) -> String {
+    format!("{}#{}", if foreign { FOREIGN } else { OTHER }, Plan::frag(m))
   }
 
   fn frag(m: u8) -> &'static str {
@@ -128,8 +193,10 @@ impl Plan {
   fn in_scope(m: u8, scope: u8) -> bool {
     match (m, scope) {
       (_, 0) => true,
-      (0, 1) | (0, 2) | (0, 5) => true, // #k1: general purpose, referenced from authentication and capabilityInvocation
-      (1, 3) => true,
+      // #k1: general purpose, referenced from authentication and capabilityInvocation. The keyAgreement (4) and
+      // capabilityDelegation (6) entries with fragment k1 reference methods of other DIDs: #k1 is not in those.
+      (0, 1) | (0, 2) | (0, 5) => true,
+      (1, 3) => true, // #k2 embedded in assertionMethod only (capabilityDelegation holds did:example:other#k2, another method)
       (2, 1) => true,
       _ => false,
     }
@@ -165,9 +232,11 @@ impl Plan {
     let lookup: Option<u8> = match self.method_id_override {
       1 => Some(self.method),
       2 => Some(other),
-      3..=6 => None,
+      3..=7 => None,
+      8 => (self.method == 2).then_some(2), // did:example:foreign#kf is a listed method, foreign#k1 / foreign#k2 are not
       _ => match self.kid {
         0 | 1 | 2 => Some(self.method),
+        10 => (self.method == 2).then_some(2),
         _ => None,
       },
     };
@@ -194,7 +263,13 @@ impl Plan {
     if self.iss != 0 {
       f.push("iss-equals-holder-document");
     }
-    if let Some(d) = self.exp {
+    let frac_exp = self.frac >= 6;
+    let frac_iss = (1..=5).contains(&self.frac) && self.issuance != 0;
+    if frac_exp {
+      if self.frac == 6 {
+        f.push("expiry");
+      }
+    } else if let Some(d) = self.exp {
       if d < 0 && !(self.date_extreme == 1) {
         f.push("expiry");
       }
@@ -203,7 +278,11 @@ impl Plan {
       0 => None,
       _ => Some(self.issuance_delta),
     };
-    if let Some(d) = used_delta {
+    if frac_iss {
+      if self.frac == 4 {
+        f.push("issuance");
+      }
+    } else if let Some(d) = used_delta {
       if d > 0 && !(self.extreme_effective() && self.date_extreme != 1) {
         f.push("issuance");
       }
@@ -214,7 +293,7 @@ impl Plan {
     if self.dup_holder == 2 {
       f.push("vp.holder-consistent");
     }
-    if self.extreme_effective() {
+    if self.extreme_effective() || (frac_iss && matches!(self.frac, 2 | 3)) || self.frac == 7 {
       f.push("numeric-date-in-range");
     }
     f
@@ -329,6 +408,24 @@ fn build(rng: &mut Rng, p: &Plan, other: u8) -> Built {
     }
     _ => {}
   }
+  match p.frac {
+    0 => {}
+    1..=5 => {
+      let name = if claims.contains_key("nbf") {
+        Some("nbf")
+      } else if claims.contains_key("iat") {
+        Some("iat")
+      } else {
+        None
+      };
+      if let Some(name) = name {
+        claims.insert(name.into(), json!(p.frac_value()));
+      }
+    }
+    _ => {
+      claims.insert("exp".into(), json!(p.frac_value()));
+    }
+  }
   let aud = if p.aud { Some("did:example:verifier".to_string()) } else { None };
   if let Some(a) = &aud {
     claims.insert("aud".into(), json!(a));
@@ -368,6 +465,12 @@ fn build(rng: &mut Rng, p: &Plan, other: u8) -> Built {
     }
     8 => {
       h.insert("kid".into(), json!(Plan::near_method_id(p.method, true)));
+    }
+    9 => {
+      h.insert("kid".into(), json!(Plan::dangling_id(p.method, false)));
+    }
+    10 => {
+      h.insert("kid".into(), json!(Plan::dangling_id(p.method, true)));
     }
     _ => {}
   }
@@ -418,6 +521,8 @@ fn build(rng: &mut Rng, p: &Plan, other: u8) -> Built {
         4 => vo = vo.method_id(DIDUrl::parse(format!("{}#kf", HOLDER)).unwrap()),
         5 => vo = vo.method_id(DIDUrl::parse(Plan::near_method_id(p.method, false)).unwrap()),
         6 => vo = vo.method_id(DIDUrl::parse(Plan::near_method_id(p.method, true)).unwrap()),
+        7 => vo = vo.method_id(DIDUrl::parse(Plan::dangling_id(p.method, false)).unwrap()),
+        8 => vo = vo.method_id(DIDUrl::parse(Plan::dangling_id(p.method, true)).unwrap()),
         _ => {}
       },
     }
@@ -451,15 +556,21 @@ fn mutate_one(rng: &mut Rng, p: &mut Plan, which: u64) {
   match which {
     0 => p.sig = 1 + rng.below(3) as u8,
     1 => {
-      p.kid = 3 + rng.below(6) as u8;
+      p.kid = 3 + rng.below(8) as u8;
       if p.kid == 6 {
         p.method = 2; // signed by the foreign method's key, named under the holder's DID
       }
+      if p.kid == 10 && p.method == 2 {
+        p.kid = 9; // did:example:foreign#kf is the method's real id; the did:example:other spelling names nothing
+      }
     }
     2 => {
-      p.method_id_override = 2 + rng.below(5) as u8;
+      p.method_id_override = 2 + rng.below(7) as u8;
       if p.method_id_override == 4 {
         p.method = 2;
+      }
+      if p.method_id_override == 8 && p.method == 2 {
+        p.method_id_override = 7;
       }
     }
     3 => p.scope = 1 + rng.below(6) as u8,
@@ -493,6 +604,7 @@ fn mutate_one(rng: &mut Rng, p: &mut Plan, which: u64) {
         }
         _ => p.issuance = 2,
       }
+      p.frac = 0;
     }
     11 => {
       p.nonce_hdr = 1 + rng.below(2) as u8;
@@ -506,11 +618,16 @@ fn mutate_one(rng: &mut Rng, p: &mut Plan, which: u64) {
         _ => 1,
       };
     }
-    _ => {
+    13 => {
       // `both` with iat after the bound but nbf before it: still acceptable (nbf decides)
       p.issuance = 3;
       p.issuance_delta = -1;
       p.other_delta = 100_000;
+    }
+    _ => {
+      // a date claim that is a JSON number but not an integer
+      p.frac = 1 + rng.below(8) as u8;
+      p.date_extreme = 0;
     }
   }
 }
@@ -527,10 +644,14 @@ impl Cx {
     let b = build(rng, p, other);
     let falsified = p.falsified(other);
     let expect_accept = falsified.is_empty();
-    let either = falsified.is_empty() && p.dup_id == 3;
+    let frac_either = falsified.is_empty() && p.frac_latitude();
+    let either = falsified.is_empty() && (p.dup_id == 3 || frac_either);
+    if p.frac != 0 {
+      self.rep.inc("fractional_date_cases");
+    }
     let case = json!({"plan": format!("{:?}", p), "other_method": Plan::method_id(other), "token": b.token, "falsified": falsified,
       "options": serde_json::to_value(&b.options).unwrap_or(Value::Null)});
-    self.rep.distinct("nontrivial", &format!("{}|m{}|kid{}|ovr{}|sc{}|iss{}|is{}|d{}{}|x{}", falsified.join("+"), p.method, p.kid, p.method_id_override, p.scope, p.iss, p.issuance, p.dup_id, p.dup_holder, p.date_extreme));
+    self.rep.distinct("nontrivial", &format!("{}|m{}|kid{}|ovr{}|sc{}|iss{}|is{}|d{}{}|x{}", falsified.join("+"), p.method, p.kid, p.method_id_override, p.scope, p.iss, p.issuance, p.dup_id, p.dup_holder, p.date_extreme * 10 + p.frac));
     self.rep.distinct("condition_vectors", &falsified.join("+"));
     let validator = JwtPresentationValidator::with_signature_verifier(EdDSAJwsVerifier::default());
     let jwt_obj = Jwt::new(b.token.clone());
@@ -540,7 +661,18 @@ impl Cx {
       Ok(Ok(d)) => {
         self.rep.inc("accepted");
         if !expect_accept {
-          self.rep.violation(&format!("accepted-although-false:{}", falsified[0]), &format!("presentation accepted although {:?} do not hold", falsified), case.clone());
+          // A token whose only defect is a date written as a non-integer number gets its own signature (one root cause:
+          // how such a number is read), so that it can never be confused with the integer-date conditions.
+          let not_frac: Vec<&'static str> = falsified.iter().copied().filter(|c| p.frac == 0 || Some(*c) != p.frac_condition()).collect();
+          if not_frac.is_empty() {
+            self.rep.violation(
+              &format!("non-integer-date-accepted:{}", p.frac_claim()),
+              &format!("presentation accepted although its {} claim is the number {} ({:?} does not hold)", p.frac_claim(), json!(p.frac_value()), falsified),
+              case.clone(),
+            );
+          } else {
+            self.rep.violation(&format!("accepted-although-false:{}", not_frac[0]), &format!("presentation accepted although {:?} do not hold", falsified), case.clone());
+          }
           return;
         }
         match Presentation::<Jwt>::from_json_value(b.vp_full.clone()) {
@@ -551,7 +683,10 @@ impl Cx {
           }
           Err(_) => self.rep.inc("expected_presentation_not_constructible"),
         }
-        if d.aud.as_ref().map(|u| u.to_string()) != b.aud
+        if frac_either {
+          // which instant a fractional date that was accepted denotes is not judged
+          self.rep.inc("accepted:fractional-date");
+        } else if d.aud.as_ref().map(|u| u.to_string()) != b.aud
           || d.expiration_date.map(|t| t.to_unix()) != b.exp
           || d.issuance_date.map(|t| t.to_unix()) != b.issuance
         {
@@ -562,7 +697,9 @@ impl Cx {
           );
         }
         let cc: Map<String, Value> = d.custom_claims.clone().map(|o| o.into_iter().collect()).unwrap_or_default();
-        if cc != b.custom {
+        if frac_either {
+          // not judged either: how an accepted fractional date is handed back is outside the statement
+        } else if cc != b.custom {
           self.rep.violation("returned-custom-claims-differ", "custom claims returned differ from those signed", case.clone());
         }
         if d.header.kid() != b.header.get("kid").and_then(|k| k.as_str()) || d.header.nonce() != b.header.get("nonce").and_then(|k| k.as_str()) {
@@ -575,7 +712,7 @@ impl Cx {
       Ok(Err(e)) => {
         self.rep.inc("rejected");
         if either {
-          self.rep.inc("rejected:vp.id-without-jti");
+          self.rep.inc(if p.dup_id == 3 { "rejected:vp.id-without-jti" } else { "rejected:fractional-date-latitude" });
         } else if expect_accept {
           let variants: Vec<&'static str> = e.presentation_validation_errors.iter().map(|e| <&'static str>::from(e)).collect();
           let mut c = case;
@@ -591,6 +728,76 @@ impl Cx {
   }
 }
 
+/// Directed table: the relationships that hold nothing but a dangling reference sharing its fragment with an own method.
+/// Every spelling that could name the own method (or the dangling reference itself) with that relationship as scope, and the
+/// same spellings unscoped / within a relationship that does hold the method (controls; judged by the same decision table).
+fn dangling_reference_probes(args: &Args, scale: u64, cx: &mut Cx, rng: &mut Rng) {
+  // (own method, scope of the dangling relationship, kid form of the reference's id, method-id form of the reference's id)
+  let entries: [(u8, u8, u8, u8); 3] = [(0, 4, 9, 7), (1, 6, 9, 7), (0, 6, 10, 8)];
+  let full = scale >= 1000;
+  let mut index = 0u64;
+  for (method, dangling_scope, ref_kid, ref_ovr) in entries {
+    let holding_scope = match method {
+      0 => 2,
+      _ => 3,
+    };
+    let scopes: &[u8] = if full { &[dangling_scope, 0, holding_scope] } else { &[dangling_scope] };
+    for &scope in scopes {
+      for kid in [0u8, 1, 2, ref_kid, 4] {
+        for ovr in [0u8, 1, ref_ovr] {
+          for nonce in [0u8, 1] {
+            if nonce == 1 && !full {
+              continue;
+            }
+            index += 1;
+            if !args.mine(index) {
+              continue;
+            }
+            let mut p = Plan::all_good(rng);
+            p.method = method;
+            p.scope = scope;
+            p.kid = kid;
+            p.method_id_override = ovr;
+            p.nonce_hdr = nonce;
+            p.nonce_opt = nonce;
+            p.normalize();
+            cx.rep.inc("dangling_reference_probes");
+            cx.scenario(rng, &p);
+          }
+        }
+      }
+    }
+  }
+}
+
+/// Directed table: every fractional / astronomically large numeric date on every claim position it can decide.
+fn fractional_date_probes(args: &Args, scale: u64, cx: &mut Cx, rng: &mut Rng) {
+  let mut index = 0u64;
+  for frac in 1u8..=8 {
+    let forms: &[u8] = if frac <= 5 { &[1, 2, 3] } else { &[0, 1, 2, 3] };
+    for &issuance in forms {
+      for with_exp in [false, true] {
+        if with_exp && scale < 1000 {
+          continue;
+        }
+        index += 1;
+        if !args.mine(index) {
+          continue;
+        }
+        let mut p = Plan::all_good(rng);
+        p.issuance = issuance;
+        p.issuance_delta = -1;
+        p.other_delta = -5;
+        p.exp = if with_exp { Some(1) } else { None };
+        p.frac = frac;
+        p.normalize();
+        cx.rep.inc("fractional_date_probes");
+        cx.scenario(rng, &p);
+      }
+    }
+  }
+}
+
 fn main() {
   let args = Args::parse();
   let scale = args.extra_u64("scale", 1000);
@@ -599,7 +806,11 @@ fn main() {
     "scenarios constructed by the harness: an all-conditions-true plan (method of the holder document incl. an embedded one and a \
      foreign-DID one, kid as full id / '#fragment' / bare fragment / method-id override, nonce, exp and nbf/iat at the boundary second, \
      duplicated vp.id/vp.holder equal, aud, custom claims) with none, one, two or a random subset of the 10 conditions falsified through \
-     every defect variant. distinct = (falsified vector, method, kid form, override, scope, iss form, issuance form, duplicates, date extreme)",
+     every defect variant. The document's keyAgreement / capabilityDelegation hold only dangling references to methods of other DIDs \
+     that share the fragment of an own method outside that relationship; a directed table names the own method by every kid / method-id \
+     spelling (full own id, '#frag', 'frag', the dangling reference's id) under those scopes and unscoped. Date claims also appear as \
+     JSON numbers that are not integers (1.5, 1e30, 253402300800.5, bound +- a fraction). \
+     distinct = (falsified vector, method, kid form, override, scope, iss form, issuance form, duplicates, date extreme / fraction)",
   );
   let mut rng = args.rng(3);
   let n = (if args.thorough { 12_000_000u64 } else { 6_000 } * scale / 1000 / args.nshards).max(60);
@@ -608,23 +819,26 @@ fn main() {
     match i % 8 {
       0 => {}
       1 | 2 | 3 => {
-        let w = rng.below(14);
+        let w = rng.below(15);
         mutate_one(&mut rng, &mut p, w);
       }
       4 | 5 => {
-        let (a, b) = (rng.below(14), rng.below(14));
+        let (a, b) = (rng.below(15), rng.below(15));
         mutate_one(&mut rng, &mut p, a);
         mutate_one(&mut rng, &mut p, b);
       }
       _ => {
-        for w in 0..14 {
+        for w in 0..15 {
           if rng.chance(1, 5) {
             mutate_one(&mut rng, &mut p, w);
           }
         }
       }
     }
+    p.normalize();
     cx.scenario(&mut rng, &p);
   }
+  dangling_reference_probes(&args, scale, &mut cx, &mut rng);
+  fractional_date_probes(&args, scale, &mut cx, &mut rng);
   cx.rep.finish();
 }
